@@ -10,6 +10,7 @@ import ast
 import base64
 import json
 import os
+import re
 import signal
 import sys
 import traceback
@@ -401,7 +402,151 @@ def op_frozen(case, pm):
     return res
 
 
-OPS = {'frozen': op_frozen, 'rt': op_rt, 'mc': op_mc, 'fold': op_fold, 'compile': op_compile, 'valeq': op_valeq}
+# ---- C01 cross-interpreter layer: run P and minify(P) in this interpreter, compare what each prints / raises / leaves in its namespace
+class _Sink(object):
+    def __init__(self):
+        self.parts = []
+        self.n = 0
+
+    def write(self, x):
+        if PY2 and isinstance(x, unicode):
+            x = x.encode('utf-8')
+        elif not PY2 and not isinstance(x, str):
+            raise TypeError('write() argument must be str')
+        self.n += len(x)
+        if self.n < 200000:
+            self.parts.append(x)
+        return len(x)
+
+    def flush(self):
+        pass
+
+    def isatty(self):
+        return False
+
+    def text(self):
+        return ''.join(self.parts)
+
+
+_ADDR = re.compile(r' at 0x[0-9a-fA-F]+')
+_REFLECTIVE = ('<locals>', ' object at 0x', '<function ', '<bound method', '<lambda>', '<code object', '<frame ', '<cell ', 'Traceback (most recent')
+
+
+def _summarise(v, depth=0):
+    t = type(v).__name__
+    if v is None or isinstance(v, (bool, int, float, complex, str, bytes)) or (PY2 and isinstance(v, (long, unicode))):
+        return _value_key(v)
+    if isinstance(v, (list, tuple, set, frozenset)) and depth < 3:
+        items = [_summarise(x, depth + 1) for x in v]
+        if isinstance(v, (set, frozenset)):
+            items.sort()
+        return t + '[' + ','.join(items[:50]) + ']'
+    if isinstance(v, dict) and depth < 3:
+        return 'dict{' + ','.join(sorted(_summarise(k, depth + 1) + '=' + _summarise(x, depth + 1) for k, x in list(v.items())[:50])) + '}'
+    if isinstance(v, type) or t == 'classobj':
+        return 'class:' + getattr(v, '__name__', '?')
+    if t == 'module':
+        return 'module:' + getattr(v, '__name__', '?')
+    return 'instance-of:' + t
+
+
+def _run_simple(text, fname):
+    sink = _Sink()
+    ns = {'__name__': '__main__', '__builtins__': __builtins__, '__file__': fname}
+    old = sys.stdout, sys.stderr
+    outcome = 'ok'
+    saved_path = list(sys.path)
+    saved_mods = set(sys.modules)
+    try:
+        try:
+            code = compile(text, fname, 'exec', dont_inherit=True)
+        except Exception as e:
+            return {'outcome': 'compile-error:' + type(e).__name__, 'stdout': '', 'namespace': {}}
+        sys.stdout = sink
+        sys.stderr = _Sink()
+        try:
+            exec(code, ns)
+        except CaseTimeout:
+            raise
+        except SystemExit as e:
+            outcome = 'exit:%r' % (e.code,)
+        except BaseException as e:
+            if isinstance(e, KeyboardInterrupt):
+                raise
+            outcome = 'raise:' + type(e).__name__
+    finally:
+        sys.stdout, sys.stderr = old
+        sys.path[:] = saved_path
+        for m in set(sys.modules) - saved_mods:
+            if not m.startswith(('encodings', 'python_minifier')):
+                pass
+    pub = {}
+    for k, v in list(ns.items()):
+        if not k.startswith('_'):
+            try:
+                pub[k] = _summarise(v)
+            except Exception as e:
+                pub[k] = 'unsummarisable:' + type(e).__name__
+    return {'outcome': outcome, 'stdout': _ADDR.sub(' at 0x', sink.text()), 'namespace': pub}
+
+
+def _run_diff(a, b):
+    d = []
+    if a['outcome'] != b['outcome']:
+        d.append('outcome %s -> %s' % (a['outcome'], b['outcome']))
+    if a['stdout'] != b['stdout']:
+        la, lb = a['stdout'].split('\n'), b['stdout'].split('\n')
+        for i in range(max(len(la), len(lb))):
+            x = la[i] if i < len(la) else '<missing>'
+            y = lb[i] if i < len(lb) else '<missing>'
+            if x != y:
+                d.append('stdout line %d: %r -> %r' % (i + 1, x[:160], y[:160]))
+                break
+    if a['namespace'] != b['namespace']:
+        ks = sorted(k for k in set(a['namespace']) | set(b['namespace']) if a['namespace'].get(k) != b['namespace'].get(k))
+        d.append('public namespace %s: %r -> %r' % (ks[0], a['namespace'].get(ks[0], '<absent>')[:120], b['namespace'].get(ks[0], '<absent>')[:120]))
+    return d
+
+
+def op_run(case, pm):
+    src = get_src(case)
+    text = src
+    a = _run_simple(text, 'prog.py')
+    if a['outcome'].startswith('compile-error'):
+        return {'status': 'skip', 'reason': 'uncompilable here'}
+    if any(m in a['stdout'] for m in _REFLECTIVE):
+        return {'status': 'skip', 'reason': 'reflective output'}
+    a2 = _run_simple(text, 'prog.py')
+    if _run_diff(a, a2):
+        return {'status': 'skip', 'reason': 'original not self-stable'}
+    res = {'status': 'held', 'violations': [], 'variants': 0, 'changed': 0, 'stdout_lines': a['stdout'].count('\n'), 'minify_raised': 0}
+    for name, opts in case['optsets']:
+        try:
+            out = pm.minify(src, **make_kwargs(pm, opts))
+        except CaseTimeout:
+            raise
+        except Exception as e:
+            res['minify_raised'] += 1
+            continue
+        q = _run_simple(out if not (PY2 and isinstance(out, unicode)) else out.encode('utf-8'), 'prog.py')
+        if q['outcome'].startswith('compile-error'):
+            res['minify_raised'] += 1
+            continue
+        res['variants'] += 1
+        if out != src:
+            res['changed'] += 1
+        d = _run_diff(a, q)
+        if d:
+            q2 = _run_simple(out if not (PY2 and isinstance(out, unicode)) else out.encode('utf-8'), 'prog.py')
+            if not _run_diff(q, q2):
+                res['violations'].append({'kind': 'behaviour-differs', 'optset': name, 'opts': opts, 'detail': '; '.join(d), 'out': out[:1500]})
+    if res['violations']:
+        res['status'] = 'violation'
+        res['violations'] = res['violations'][:3]
+    return res
+
+
+OPS = {'run': op_run, 'frozen': op_frozen, 'rt': op_rt, 'mc': op_mc, 'fold': op_fold, 'compile': op_compile, 'valeq': op_valeq}
 
 
 def main():
